@@ -16,6 +16,12 @@ Correspondence / oracle (every run, real code from $RTC_REPO/src):
     outputs recorded at every step incl. t0 (extract_results / exported CSV vs the get_var log);
     unsolvable steps / initialisations raise; simulation = optimisation transcription with
     theta = 1 and fixed controls (real IPOPT solve);
+  * stream `rootfinder`: generated models with a square-root type algebraic `q1*q1 = affine(inputs[, state])`
+    under every rootfinder rootfinder_options() documents (default nlpsol/ipopt, explicit nlpsol dictionary,
+    fast_newton, newton; CasADi's error_on_fail on and off); the input drives steps out of the solvable range
+    and back.  Every update() that returns is checked against the step residual, a step without a solution
+    must raise (any exception type), a failed update() leaves the unknowns untouched (theorems
+    C09_failure_raises, C09_returns_iff_root, C09_history_returned_steps) and the run goes on;
   * MODEL (Lean driver): the model's step residual / initial constraints evaluated on the same
     (scaled) state vectors must agree with the oracle's evaluation (1e-9), and for affine models
     the model's own `update` / IO loop with an exact rational root finder must reproduce the real
@@ -1188,6 +1194,176 @@ def stream_unsolvable(c, tmp, rng, pending):
 
 
 # ------------------------------------------------------------------------------------------------
+# stream `rootfinder`: every rootfinder the documentation of rootfinder_options() names (default nlpsol/ipopt,
+# an explicit nlpsol dictionary, fast_newton, newton; with and without CasADi's own error_on_fail) on models
+# with a square-root type algebraic `q1*q1 = affine(inputs[, state])`: the input drives steps out of the
+# solvable range and back.  Oracle: every update() that RETURNS satisfies the property's step residual
+# (check_step); a step whose right-hand side is negative by a margin has no solution and must raise (any
+# exception type); a failed update() leaves the unknowns untouched and the time advanced (the model's
+# `update`, theorem C09_failure_raises), and the run goes on from there.
+
+
+ROOTFINDERS = ["fast_newton", "newton", "default", "fast_newton-opts", "newton-casadi-raises", "nlpsol-explicit",
+               "fast_newton-casadi-raises"]
+
+
+def rootfinder_dict(key, sim):
+    if key == "default":
+        return None
+    if key == "nlpsol-explicit":
+        return {"solver": "nlpsol", "solver_options": {"nlpsol": "ipopt", "error_on_fail": False,
+                                                        "nlpsol_options": {"ipopt.print_level": 0, "print_time": False,
+                                                                           "ipopt.tol": 1e-10}}}
+    if key == "fast_newton":
+        return {"solver": "fast_newton", "solver_options": {"error_on_fail": False}}
+    if key == "newton":
+        return {"solver": "newton", "solver_options": {"error_on_fail": False}}
+    if key == "fast_newton-opts":
+        return {"solver": "fast_newton", "solver_options": {"error_on_fail": False, "max_iter": 60, "abstol": 1e-11}}
+    if key == "newton-casadi-raises":
+        return {"solver": "newton", "solver_options": {"error_on_fail": True}}
+    if key == "fast_newton-casadi-raises":
+        return {"solver": "fast_newton", "solver_options": {}}
+    raise KeyError(key)
+
+
+SQ_MARGIN = 0.25  # |right-hand side| / nq^2 of the generated solvable / unsolvable steps is at least this
+
+
+def stream_rootfinder(c, spec, tmp, sub, pending, nsteps, key):
+    rng = random.Random(sub)
+    Plain = sim_classes()[0]
+
+    class WithRootfinder(Plain):
+        def rootfinder_options(self):
+            o = rootfinder_dict(key, self)
+            return super().rootfinder_options() if o is None else o
+
+    G.write_mo(spec, tmp)
+    names = G.all_names(spec)
+    sq = spec["sqrt"]
+    case = {"stream": "rootfinder", "spec": spec, "sub": sub, "rootfinder": key}
+    r = call(WithRootfinder, model_folder=tmp, model_name=spec["name"], input_folder=tmp, output_folder=tmp)
+    c.programs += 1
+    if r[0] == "raise":
+        c.fail("model does not load: " + r[1], case)
+        return
+    sim = r[1]
+    nm = row_scale(spec)
+    start = rng.choice([0.0, 0.0, 2.0, -1.5])
+    dt0 = rng.choice([1.0, 0.5, 0.25, 2.0])
+    fixed = G.fixed_starts(spec)
+
+    def aim(target, xval):
+        """u1 such that the right-hand side of the q1 equation is `target` (in units of nq^2) given the state value"""
+        off = sq["c0"] + (sq["cx"] * xval / nm[sq["state"]] if sq["state"] else 0.0)
+        return (target - off) / sq["cu"]
+
+    def others():
+        return [G.dy(rng, -2, 2) for _ in spec["inputs"][1:]]
+
+    x0 = fixed.get(sq["state"], 0.0) if sq["state"] else 0.0
+    u_init = [aim(rng.choice([0.25, 1.0, 2.25]), x0)] + others()
+    sim.setup_experiment(start, start + 1000.0, dt0)
+    for u, val in zip(spec["inputs"], u_init):
+        sim.set_var(u, val)
+    r = call(sim.initialize)
+    if r[0] == "raise":
+        c.hit("rootfinder/init-raise")  # the initial state is found by the IPOPT NLP whatever the step rootfinder
+        return
+    v0 = snap(sim, names)
+    check_init(c, case, spec, v0, fixed, "rootfinder")
+    w = Wire(spec, {p["n"]: v0[p["n"]] for p in spec["params"]})
+    # plan: solvable and unsolvable steps mixed; at least one unsolvable step followed by a solvable one
+    kinds = [("bad" if rng.random() < 0.35 else "good") for _ in range(nsteps)]
+    kinds[0] = "good"
+    j = rng.randrange(1, nsteps - 1)
+    kinds[j], kinds[j + 1] = "bad", "good"
+    case.update(start=start, dt0=dt0, kinds=kinds, inputs=[u_init])
+    prev = v0
+    raised = returned = 0
+    for k, kind in enumerate(kinds):
+        # unsolvable targets are never the negative of a solvable one: with q1_prev^2 = -target * nq^2 the first
+        # Newton iterate is exactly the singular point q1 = 0 (suspected finding S3, dedicated probe)
+        target = rng.choice([0.25, 0.5, 1.0, 2.25, 4.0]) if kind == "good" else -rng.choice([0.3, 0.7, 1.3, 3.1, 9.7])
+        ins = [aim(target, prev[sq["state"]] if sq["state"] else 0.0)] + others()
+        case["inputs"].append(ins)
+        for u, val in zip(spec["inputs"], ins):
+            sim.set_var(u, val)
+        dta = rng.choice([dt0, dt0, -1.0, 0.5, 1.5])
+        dt = dta if dta > 0 else float(sim.get_time_step())
+        before = snap(sim, names)
+        r = call(sim.update, dta)
+        # right-hand side of the q1 equation as far as it is known without solving the step
+        decided = sq["state"] is None
+        c.count(("rootfinder", spec["name"], key, k, kind, decided))
+        if r[0] == "raise":
+            raised += 1
+            c.hit("rootfinder/%s/raise" % key)
+            c.hit("rootfinder/raise-" + r[1].split(":")[0])
+            if kind == "good" and decided:
+                # a root exists (q1 = nq*sqrt(target) reachable from the previous positive q1); the remainder of
+                # the model is the usual generated (affine / monotone) system
+                c.hit("rootfinder/solvable-step-raised")
+                if not spec.get("base_nonlinear"):
+                    c.disagree("update() raised on a solvable step (rootfinder %s): %s" % (key, r[1]),
+                               dict(case, step=k), "returned", "raise")
+            after = snap(sim, names)
+            # C09_failure_raises: unknowns unchanged, time advanced, inputs as set
+            for n_ in names:
+                exp = before["time"] + dt if n_ == "time" else before[n_]
+                if not (after[n_] == exp or (n_ == "time" and abs(after[n_] - exp) <= 1e-12 * max(1.0, abs(exp)))):
+                    c.disagree("object state after a failed update(): %s" % n_, dict(case, step=k), exp, after[n_])
+            prev = after
+            continue
+        returned += 1
+        c.hit("rootfinder/%s/return" % key)
+        cur = snap(sim, names)
+        if any(math.isnan(cur[n_]) for n_ in names):
+            # CasADi's newton / fast_newton report success for a NaN iterate and update() only logs the NaN:
+            # suspected finding S3 (the generator avoids the coincidence that produces it; listed -> attributed)
+            c.hit("rootfinder/nan-state-returned")
+            c.fail("update() returned a state containing NaN (rootfinder %s, %s step)" % (key, kind), dict(case, step=k),
+                   {"values": cur, "prev": prev, "dt": dt}, finding=suspected_id("S3"))
+            break
+        if kind == "bad" and decided:
+            c.fail("update() returned from a step that has no solution: q1*q1 = %s * nq^2 (rootfinder %s)" % (target, key),
+                   dict(case, step=k), {"values": cur, "prev": prev, "dt": dt})
+        check_step(c, dict(case, step=k), spec, prev, cur, dt, "rootfinder/" + key)
+        for u, val in zip(spec["inputs"], ins):
+            if cur[u] != val:
+                c.fail("input %s changed during update()" % u, dict(case, step=k), {"set": val, "got": cur[u]})
+        # model residual at this step (same comparison as in stream `plain`)
+        dq_rows = [cur["der(%s)" % s_] - (cur[s_] - prev[s_]) / dt for s_ in w.S]
+        rr = scaled_residuals(spec, [e["terms"] for e in spec["eqs"]], cur, nm)
+        exp = [x[0] for x in rr] + dq_rows
+        scs = [x[1] for x in rr] + [1.0 + abs(cur["der(%s)" % s_]) + (abs(cur[s_]) + abs(prev[s_])) / dt for s_ in w.S]
+        line = dict(op="residual", X=frs(w.rawX(cur)), dt=fr(dt), consts=frs(w.rawX(prev) + w.rest(cur)), **w.base())
+
+        def cmp_res(out, exp=exp, scs=scs, case=dict(case, step=k)):
+            if not isinstance(out, list) or len(out) != len(exp) or not all(
+                    close(m, e, EVAL_TOL, s_) for m, e, s_ in zip(out, exp, scs)):
+                c.disagree("step residual (model vs oracle evaluation)", case, out, exp)
+
+        pending.append((line, cmp_res))
+        prev = cur
+    if raised and returned:
+        c.hit("rootfinder/runs-with-failed-and-solved-steps")
+
+
+def gen_rootfinder_specs(c, n, k0):
+    out = []
+    for i in range(n):
+        rng = random.Random(c.subseed())
+        base_nl = rng.random() < 0.25
+        spec = G.gen_spec(rng, k0 + i, nonlinear=base_nl, exact_init=True, big=c.big)
+        spec["base_nonlinear"] = base_nl
+        G.add_sqrt_alg(spec, rng, state_driven=(i % 3 == 2))
+        out.append((spec, c.subseed(), ROOTFINDERS[i % len(ROOTFINDERS)]))
+    return out
+
+
+# ------------------------------------------------------------------------------------------------
 # suspected findings (reported to the coordinator; the main generator avoids these inputs)
 
 
@@ -1195,7 +1371,9 @@ def probe_findings(c, tmp):
     """S1: an `output` assigned a constant is eliminated by pymoca but stays in the output list:
            IOMixin.initialize raises KeyError.
        S2: an import series named like a *state* is written into the state vector before every
-           step (IOMixin.__set_input_variables loops over all variables, not the inputs)."""
+           step (IOMixin.__set_input_variables loops over all variables, not the inputs).
+       S3: newton / fast_newton: a Newton iterate on a singular Jacobian gives NaN with success = True;
+           update() logs the NaN and returns the NaN state."""
     CSVSim = sim_classes()[1]
     t0 = datetime.datetime(2020, 1, 1)
     out = {}
@@ -1226,6 +1404,32 @@ def probe_findings(c, tmp):
             xs = [l["x1"] for l in r[1].c09_log]
             # backward Euler from x(0) = 1 with der(x) = 1: 1, 2, 3, 4
             out["S2"] = (xs != [1.0, 2.0, 3.0, 4.0], xs)
+    # S3: der(x) = -x + u, y*y = u from x = y = u = 1: a solved step with u = 1 (y = 1 exactly), then u = -1: no real y.
+    # The first Newton iterate is y = 1 + (-2)/(2*1) = 0 exactly (singular Jacobian), the next one NaN, which CasADi's
+    # newton / fast_newton call a success
+    d = os.path.join(tmp, "probe_s3")
+    os.makedirs(d, exist_ok=True)
+    with open(os.path.join(d, "K3.mo"), "w") as f:
+        f.write("model K3\n  Real x(start=1.0, fixed=true);\n  Real y(start=1.0);\n  input Real u(fixed=true);\n"
+                "equation\n  der(x) = -x + u;\n  y * y = u;\nend K3;\n")
+    Plain = sim_classes()[0]
+    obs = {}
+    for solver in ("newton", "fast_newton"):
+        K3 = type("K3" + solver, (Plain,), {"rootfinder_options": lambda self, solver=solver: {
+            "solver": solver, "solver_options": {"error_on_fail": False}}})
+        r = call(K3, model_folder=d, model_name="K3", input_folder=d, output_folder=d)
+        if r[0] != "ok":
+            continue
+        sim = r[1]
+        sim.setup_experiment(0.0, 10.0, 1.0)
+        sim.set_var("u", 1.0)
+        if call(sim.initialize)[0] != "ok" or call(sim.update, 1.0)[0] != "ok":
+            continue
+        sim.set_var("u", -1.0)
+        r2 = call(sim.update, 1.0)
+        obs[solver] = r2[1] if r2[0] == "raise" else {n_: float(sim.get_var(n_)) for n_ in ("x", "y", "der(x)")}
+    if obs:
+        out["S3"] = (any(isinstance(o, dict) and math.isnan(o["y"]) for o in obs.values()), obs)
     return out
 
 
@@ -1252,7 +1456,7 @@ def stream_bisect(c, rng, pending, n):
         pending.append((dict(op="bisect", ts=frs(ts), t=fr(t)), cmp))
 
 
-def run_specs(c, specs_plain, specs_io, specs_x, nsteps):
+def run_specs(c, specs_plain, specs_io, specs_x, nsteps, specs_rf=()):
     tmp = tempfile.mkdtemp(prefix="C09_")
     pending = []
     stream_bisect(c, c.rng, pending, 40)
@@ -1267,6 +1471,8 @@ def run_specs(c, specs_plain, specs_io, specs_x, nsteps):
                 stream_io(c, spec, os.path.join(tmp, "io"), random.Random(sub), pending, nsteps, variant)
         for spec, sub in specs_x:
             stream_xcheck(c, spec, os.path.join(tmp, "x"), random.Random(sub), nsteps)
+        for spec, sub, key in specs_rf:
+            stream_rootfinder(c, spec, os.path.join(tmp, "rf"), sub, pending, 8, key)
         stream_unsolvable(c, tmp, c.rng, pending)
         found = probe_findings(c, tmp)
     finally:
@@ -1283,9 +1489,18 @@ def run_specs(c, specs_plain, specs_io, specs_x, nsteps):
 
 
 SUSPECTED = {
+    "S3": "with rootfinder_options() -> newton / fast_newton a Newton iterate that lands on a singular Jacobian turns NaN, "
+          "CasADi reports success, and update() logs the NaN but returns a NaN state instead of raising",
     "S1": "IOMixin.initialize raises KeyError for an `output` variable assigned a constant (eliminated by pymoca, still listed as output)",
     "S2": "an import time series named like a state overwrites that state before every step (IOMixin sets all matching variables, not only inputs)",
 }
+
+
+def suspected_id(sid):
+    """id of the listed finding that carries `c09_probe == sid`, or None"""
+    from .common import load_known
+
+    return next((k["id"] for k in load_known() if k.get("c09_probe") == sid), None)
 
 
 def report_suspected(c, found):
@@ -1322,7 +1537,11 @@ def run(c):
         "also stepped by explicit update(dt) with dt coarser / finer than the import spacing and on a non-equidistant "
         "import axis: inputs = import value at bisect_left(times, t+dt)); "
         "optimisation cross-check (ModelicaMixin + collocation, theta = 1, controls fixed by bounds, IPOPT); four "
-        "unsolvable step / initialisation models; bisect table.  distinct = (stream, model, step) tuples"
+        "unsolvable step / initialisation models; stream rootfinder: generated models + algebraic q1*q1 = affine(u1[, "
+        "state]) under rootfinder_options() = default / explicit nlpsol / fast_newton / newton (error_on_fail on and "
+        "off, extra solver options), 8 steps with the input aimed at solvable (rhs >= 0.25 nq^2) and unsolvable (rhs <= "
+        "-0.3 nq^2) right-hand sides, at least one unsolvable step followed by a solvable one; bisect table.  "
+        "distinct = (stream, model, step) tuples"
     )
     c.assumptions = [
         "pymoca delivers states and der_states in matching order and detects `a = b` / `a = -b` as aliases (re-checked per model through get_var on every name)",
@@ -1334,6 +1553,9 @@ def run(c):
         "KeyError (generated models never assign a constant/known expression to a variable; dedicated probe)",
         "known finding F38: an import series named like a state overwrites that state before every step (generated "
         "import data only carries input columns, theorem hypothesis `SeriesWF`; dedicated probe)",
+        "suspected finding S3 (not listed yet): with newton / fast_newton a Newton iterate that lands exactly on a "
+        "singular Jacobian turns NaN, CasADi reports success and update() returns the NaN state (only logs it); the "
+        "rootfinder stream avoids unsolvable right-hand sides equal to minus the previous q1^2 (dedicated probe)",
         "a non-zero Modelica start attribute takes precedence over initial_state.csv (documented in "
         "SimulationProblem.initialize): initial-state files are generated only for states without start attribute",
     ]
@@ -1354,7 +1576,8 @@ def run(c):
     for _ in range(n_x):
         specs_x.append((G.gen_spec(random.Random(c.subseed()), k, exact_init=True, big=c.big), c.subseed()))
         k += 1
-    found = run_specs(c, specs_plain, specs_io, specs_x, nsteps)
+    specs_rf = gen_rootfinder_specs(c, c.n(9, 42), k)
+    found = run_specs(c, specs_plain, specs_io, specs_x, nsteps, specs_rf)
     report_suspected(c, found)
     c.extra["worst_observed_over_tolerance"] = {k: float("%.3g" % v) for k, v in WORST.items()}
     c.exhaustive = False
@@ -1366,7 +1589,7 @@ def run(c):
 def replay(c, rp):
     logging.getLogger("rtctools").setLevel(logging.CRITICAL)
     c.prove(extra=gen_sim_step(c))  # + the simulation bookkeeping translated from the source
-    plain, io, xs = [], [], []
+    plain, io, xs, rf = [], [], [], []
     for f in rp.get("failures", []) + rp.get("correspondence_disagreements", []) + rp.get("disagreements", []):
         case = f.get("case") or {}
         spec = case.get("spec")
@@ -1376,11 +1599,14 @@ def replay(c, rp):
             eq["terms"] = [(t[0], list(t[1])) for t in eq["terms"]]
         st = case.get("stream", "plain")
         print("replaying", f.get("what"), "on", spec["name"], "stream", st)
-        if st.startswith("io"):
+        if st == "rootfinder":
+            if not any(spec["name"] == q[0]["name"] and case["rootfinder"] == q[2] for q in rf):
+                rf.append((spec, case["sub"], case["rootfinder"]))
+        elif st.startswith("io"):
             io.append((spec, c.subseed(), st.split("/")[-1]))
         elif st == "xcheck":
             xs.append((spec, c.subseed()))
         else:
             plain.append((spec, c.subseed()))
-    found = run_specs(c, plain, io, xs, 10)
+    found = run_specs(c, plain, io, xs, 10, rf)
     report_suspected(c, found)
